@@ -1,13 +1,454 @@
-//! C10 — not implemented yet (stub so that props/mod.rs never has to change).
-use crate::engine::PropSpec;
+//! C10 — Backups running concurrently with prune or each other stay intact.
+//!
+//! Generated: a pre-state whose history ends with a forget, and two commands A, B (backup‖prune,
+//! prune‖backup, backup‖backup), each with its own repository handle on the same storage.
+//! Schedules are ENUMERATED: A runs in its own thread and is parked right before its k-th backend
+//! call (reads and listings included) for every k; then B runs completely, or up to its own j-th
+//! call where it is parked while A finishes. Oracle: the model of every snapshot (old and both new
+//! ones) after the overlap (backup‖backup) resp. after a follow-up prune (when a prune took part);
+//! packs marked by the overlapping prune must still exist before the follow-up prune.
+
+use std::{
+    collections::BTreeSet,
+    sync::{
+        Arc,
+        atomic::{AtomicBool, Ordering},
+    },
+};
+
+use proptest::prelude::*;
+use rustic_core::{FileType, Id, repofile::SnapshotFile};
+use serde::{Deserialize, Serialize};
+use vpcore::fmt::BType;
+
+use crate::{
+    engine::{Ctx, DynSub, Outcome, PropSpec, Sub, guarded, pick_idx},
+    r#gen::{Edit, apply_edit, edit, tree},
+    history::{HOp, Lim, PruneCfg, World, hop, prune_cfg},
+    inspect::{index_view, reachable},
+    membe::{Files, MemBackend, Storage, id_bytes},
+    model::{Flat, MNode, ReadSchedule, flatten},
+    repo::{
+        CheckVerdict, CmpOpts, RepoCfg, backup_tree, check_verdict, compare, estr, force_opts, open_full,
+        open_repo, read_snapshot, repo_cfg, snap_template,
+    },
+};
+
+#[derive(Debug, Clone, Copy, Serialize, Deserialize, PartialEq, Eq)]
+pub enum Pairing {
+    BackupPrune,
+    PruneBackup,
+    BackupBackup,
+}
+
+#[derive(Debug, Clone, Serialize, Deserialize)]
+pub struct Case {
+    pub cfg: RepoCfg,
+    pub tree: MNode,
+    pub pre: Vec<HOp>,
+    pub forget: u16,
+    pub pairing: Pairing,
+    pub edits_a: Vec<Edit>,
+    pub edits_b: Vec<Edit>,
+    pub prune: PruneCfg,
+    /// positions (scaled) at which B is parked; B also always runs once without being parked
+    pub js: Vec<u16>,
+    /// thorough: enumerate every j instead of the generated ones
+    #[serde(default)]
+    pub all_j: bool,
+}
+
+fn strategy(ctx: &Ctx) -> BoxedStrategy<Case> {
+    let thorough = ctx.tier.is_thorough();
+    repo_cfg()
+        .prop_flat_map(move |cfg| {
+            let mut p = super::c07::params(&cfg);
+            p.file_cap = 40_000;
+            p.max_children = 3;
+            p.depth = 2;
+            (
+                Just(cfg),
+                tree(p),
+                prop::collection::vec(
+                    hop(p, false).prop_filter("backups only", |o| matches!(o, HOp::Backup { .. })),
+                    1..3,
+                ),
+                any::<u16>(),
+                prop_oneof![Just(Pairing::BackupPrune), Just(Pairing::PruneBackup), Just(Pairing::BackupBackup)],
+                prop::collection::vec(edit(p), 0..3),
+                prop::collection::vec(edit(p), 0..3),
+                prune_cfg(),
+                prop::collection::vec(any::<u16>(), 3),
+                Just(thorough),
+            )
+        })
+        .prop_map(|(cfg, tree, pre, forget, pairing, edits_a, edits_b, mut prune, js, all_j)| {
+            // the overlapping prune is a non-instant one whose keep-delete exceeds any backup here
+            prune.instant_delete = false;
+            prune.early_delete_index = false;
+            prune.keep_delete_23h = true;
+            Case {
+                cfg,
+                tree,
+                pre,
+                forget,
+                pairing,
+                edits_a,
+                edits_b,
+                prune,
+                js,
+                all_j,
+            }
+        })
+        .boxed()
+}
+
+#[derive(Clone)]
+enum Cmd {
+    Backup { tree: MNode, time: i64 },
+    Prune(PruneCfg),
+}
+
+/// Each of the two overlapping commands gets its own rayon pool. The library uses the pool of the
+/// calling thread (`rayon::spawn`, parallel iterators); in one shared pool a worker that waits
+/// inside A's job steals B's job and, when that parks at B's gate, A can never finish: a deadlock
+/// of the harness, not of two real processes.
+fn pool(which: usize) -> &'static rayon::ThreadPool {
+    static POOLS: std::sync::OnceLock<[rayon::ThreadPool; 2]> = std::sync::OnceLock::new();
+    &POOLS.get_or_init(|| {
+        let mk = |n: &str| {
+            let n = n.to_string();
+            rayon::ThreadPoolBuilder::new()
+                .num_threads(12)
+                .thread_name(move |i| format!("c10-pool-{n}-{i}"))
+                .build()
+                .expect("rayon pool")
+        };
+        [mk("A"), mk("B")]
+    })[which]
+}
+
+fn run_cmd_in(which: usize, cmd: &Cmd, be: MemBackend, cfg: &RepoCfg) -> Result<Option<SnapshotFile>, String> {
+    pool(which).install(|| run_cmd(cmd, be, cfg))
+}
+
+fn run_cmd(cmd: &Cmd, be: MemBackend, cfg: &RepoCfg) -> Result<Option<SnapshotFile>, String> {
+    let r = guarded(|| -> Result<Option<SnapshotFile>, String> {
+        match cmd {
+            Cmd::Backup { tree, time } => {
+                let repo = open_repo(be, cfg)?.to_indexed_ids().map_err(|e| estr(&e))?;
+                backup_tree(&repo, tree, &ReadSchedule::default(), &force_opts(), snap_template(*time, "host", "", "")).map(Some)
+            }
+            Cmd::Prune(p) => {
+                let repo = open_repo(be, cfg)?;
+                let opts = p.options(cfg);
+                let plan = repo.prune_plan(&opts).map_err(|e| format!("prune_plan: {}", estr(&e)))?;
+                repo.prune(&opts, plan).map_err(|e| format!("prune: {}", estr(&e)))?;
+                Ok(None)
+            }
+        }
+    });
+    match r {
+        Ok(x) => x,
+        Err(p) => Err(format!("panicked: {p}")),
+    }
+}
+
+struct Overlap {
+    res_a: Result<Option<SnapshotFile>, String>,
+    res_b: Result<Option<SnapshotFile>, String>,
+    a_parked: bool,
+    b_parked: bool,
+}
+
+/// A parked before its k-th backend call; B runs fully (j = None) or is parked before its j-th call
+/// while A finishes.
+fn overlap(storage: &Arc<Storage>, cfg: &RepoCfg, a: &Cmd, b: &Cmd, k: usize, j: Option<usize>) -> Overlap {
+    let be_a = storage.handle();
+    be_a.control(|c| c.gate_at = Some(k));
+    let done_a = Arc::new(AtomicBool::new(false));
+    let (cfg_a, a2, be_a2, done_a2) = (cfg.clone(), a.clone(), be_a.clone(), done_a.clone());
+    let th_a = std::thread::Builder::new()
+        .name("c10-A".into())
+        .stack_size(16 << 20)
+        .spawn(move || {
+            let r = run_cmd_in(0, &a2, be_a2, &cfg_a);
+            done_a2.store(true, Ordering::SeqCst);
+            r
+        })
+        .expect("spawn A");
+    let a_parked = be_a.wait_parked(|| done_a.load(Ordering::SeqCst));
+
+    let be_b = storage.handle();
+    let mut b_parked = false;
+    let res_b;
+    match j {
+        None => {
+            res_b = run_cmd_in(1, b, be_b, cfg);
+            be_a.release();
+        }
+        Some(j) => {
+            be_b.control(|c| c.gate_at = Some(j));
+            let done_b = Arc::new(AtomicBool::new(false));
+            let (cfg_b, b2, be_b2, done_b2) = (cfg.clone(), b.clone(), be_b.clone(), done_b.clone());
+            let th_b = std::thread::Builder::new()
+                .name("c10-B".into())
+                .stack_size(16 << 20)
+                .spawn(move || {
+                    let r = run_cmd_in(1, &b2, be_b2, &cfg_b);
+                    done_b2.store(true, Ordering::SeqCst);
+                    r
+                })
+                .expect("spawn B");
+            b_parked = be_b.wait_parked(|| done_b.load(Ordering::SeqCst));
+            // A finishes while B is parked
+            be_a.release();
+            while !done_a.load(Ordering::SeqCst) {
+                std::thread::sleep(std::time::Duration::from_micros(200));
+            }
+            be_b.release();
+            res_b = th_b.join().unwrap_or_else(|_| Err("thread B died".into()));
+        }
+    }
+    be_a.release();
+    let res_a = th_a.join().unwrap_or_else(|_| Err("thread A died".into()));
+    Overlap {
+        res_a,
+        res_b,
+        a_parked,
+        b_parked,
+    }
+}
+
+fn verify_all(storage: &Arc<Storage>, cfg: &RepoCfg, snaps: &[(SnapshotFile, Arc<Flat>)]) -> Result<(), String> {
+    let want: BTreeSet<[u8; 32]> = snaps.iter().map(|(s, _)| id_bytes(&s.id)).collect();
+    let have: BTreeSet<[u8; 32]> = storage.ids(FileType::Snapshot).iter().map(id_bytes).collect();
+    if want != have {
+        return Err(format!("{} snapshot files exist, {} snapshots were created and not forgotten", have.len(), want.len()));
+    }
+    let full = open_full(storage, cfg)?;
+    for (s, m) in snaps {
+        let got = read_snapshot(&full, s, true).map_err(|e| format!("snapshot {} cannot be read: {e}", s.id))?;
+        if let Some(d) = compare(m, &got, &CmpOpts { full_meta: true, content: true }) {
+            return Err(format!("snapshot {}: {d}", s.id));
+        }
+    }
+    Ok(())
+}
+
+pub fn run(c: &Case, _ctx: &Ctx) -> Outcome {
+    let mut out = Outcome::pass().class(format!("{:?}", c.pairing));
+    macro_rules! fail {
+        ($($arg:tt)*) => {{
+            out.failure = Some(format!($($arg)*));
+            return out;
+        }};
+    }
+    // pre-state: backups, then forget one snapshot (so that a prune has something to do)
+    let mut w = match World::new(&c.cfg, &c.tree) {
+        Ok(w) => w,
+        Err(e) => fail!("{e}"),
+    };
+    let first = HOp::Backup { edits: vec![], parent: false };
+    for op in std::iter::once(&first).chain(c.pre.iter()) {
+        if let Err(e) = w.step(op) {
+            fail!("pre-state: {e}");
+        }
+    }
+    if let Err(e) = w.step(&HOp::Forget { sel: vec![c.forget] }) {
+        fail!("pre-state: {e}");
+    }
+    let base: Files = w.storage.files();
+    let pre: Vec<(SnapshotFile, Arc<Flat>)> = w.live.iter().map(|l| (l.snap.clone(), l.model.clone())).collect();
+    let mut tree_a = w.tree.clone();
+    for e in &c.edits_a {
+        _ = apply_edit(&mut tree_a, e, 5001);
+    }
+    let mut tree_b = w.tree.clone();
+    for e in &c.edits_b {
+        _ = apply_edit(&mut tree_b, e, 5002);
+    }
+    let (a, b) = match c.pairing {
+        Pairing::BackupPrune => (Cmd::Backup { tree: tree_a.clone(), time: w.clock + 100 }, Cmd::Prune(c.prune.clone())),
+        Pairing::PruneBackup => (Cmd::Prune(c.prune.clone()), Cmd::Backup { tree: tree_b.clone(), time: w.clock + 200 }),
+        Pairing::BackupBackup => (
+            Cmd::Backup { tree: tree_a.clone(), time: w.clock + 100 },
+            Cmd::Backup { tree: tree_b.clone(), time: w.clock + 200 },
+        ),
+    };
+    let model_of = |cmd: &Cmd| match cmd {
+        Cmd::Backup { tree, .. } => Some(Arc::new(flatten(tree))),
+        Cmd::Prune(_) => None,
+    };
+    // number of backend calls of B when run alone (to scale the generated j positions)
+    let n_b = {
+        let st = Storage::from_files(base.clone());
+        let be = st.handle();
+        if let Err(e) = run_cmd(&b, be.clone(), &c.cfg) {
+            fail!("command B alone on the pre-state: {e}");
+        }
+        be.control(|ctl| ctl.ops_seen)
+    };
+    let mut js: Vec<Option<usize>> = vec![None];
+    if c.all_j {
+        js.extend((0..n_b).map(Some));
+    } else {
+        js.extend(c.js.iter().map(|j| Some(pick_idx(*j, n_b.max(1)))));
+    }
+    let follow_up = PruneCfg {
+        max_unused: Lim::Unlimited,
+        max_repack: Lim::Unlimited,
+        keep_pack_1h: false,
+        keep_delete_23h: false,
+        instant_delete: false,
+        early_delete_index: false,
+        fast_repack: false,
+        repack_all: false,
+        repack_uncompressed: false,
+        no_resize: true,
+        repack_cacheable_only: None,
+    };
+    let key = c.cfg.key64();
+    let mut schedules = 0u64;
+    let mut interesting = 0u64;
+    let mut failed_cmds = 0u64;
+    let (mut t_overlap, mut t_follow, mut t_verify, mut t_check) = (std::time::Duration::ZERO, std::time::Duration::ZERO, std::time::Duration::ZERO, std::time::Duration::ZERO);
+    // backend calls of A when run alone: the positions at which A can be parked
+    let n_a = {
+        let st = Storage::from_files(base.clone());
+        let be = st.handle();
+        if let Err(e) = run_cmd(&a, be.clone(), &c.cfg) {
+            fail!("command A alone on the pre-state: {e}");
+        }
+        be.control(|ctl| ctl.ops_seen)
+    };
+    // every position; for very long commands the quick tier takes an even sample of 40 positions
+    // (first and last included), the thorough tier enumerates all of them
+    let ks: Vec<usize> = if c.all_j || n_a <= 40 {
+        (0..n_a).collect()
+    } else {
+        (0..40).map(|i| i * (n_a - 1) / 39).collect()
+    };
+    out = out.class_if(ks.len() < n_a, "positions_sampled");
+    let mut k_done = 0usize;
+    for k in ks {
+        k_done += 1;
+        let mut a_ever_parked = false;
+        for j in &js {
+            let st = Storage::from_files(base.clone());
+            let packs_before: BTreeSet<Id> = st.ids(FileType::Pack).into_iter().collect();
+            let t0 = std::time::Instant::now();
+            let ov = overlap(&st, &c.cfg, &a, &b, k, *j);
+            t_overlap += t0.elapsed();
+            schedules += 1;
+            a_ever_parked |= ov.a_parked;
+            let tag = format!(
+                "{:?}, A parked before its call #{k}{}",
+                c.pairing,
+                match j {
+                    None => ", B ran completely meanwhile".to_string(),
+                    Some(j) => format!(", B parked before its call #{j} while A finished{}", if ov.b_parked { "" } else { " (B ended earlier)" }),
+                }
+            );
+            let mut snaps = pre.clone();
+            for (cmd, res) in [(&a, &ov.res_a), (&b, &ov.res_b)] {
+                match res {
+                    // Without locks a command may find a file it listed removed by the other one
+                    // and give up with an error: the statement promises that no snapshot loses
+                    // data, not that both commands succeed. A panic is not an orderly error.
+                    Err(e) if e.starts_with("panicked") => fail!("[{tag}] a command panicked: {e}"),
+                    Err(_) => {
+                        failed_cmds += 1;
+                        // a failed backup must not leave a snapshot behind that is not in the model:
+                        // verify_all compares the snapshot file set below
+                    }
+                    Ok(Some(s)) => snaps.push((s.clone(), model_of(cmd).unwrap())),
+                    Ok(None) => {}
+                }
+            }
+            let prune_involved = c.pairing != Pairing::BackupBackup;
+            if prune_involved {
+                // packs the overlapping (non-instant, keep-delete 23 h) prune marks must still exist
+                let now: BTreeSet<Id> = st.ids(FileType::Pack).into_iter().collect();
+                if let Some(gone) = packs_before.difference(&now).next() {
+                    fail!("[{tag}] pack {gone:?} was removed by a non-instant prune with keep-delete 23h");
+                }
+                // is this schedule one where the backup used blobs of packs the prune marked?
+                if let Ok(view) = index_view(&st, &key) {
+                    if let Some((s, _)) = snaps.last() {
+                        let blobs_in_marked: BTreeSet<_> = view.marked.values().flatten().copied().collect();
+                        if !blobs_in_marked.is_empty() {
+                            // reachable() fails if blobs are only in marked packs: that is exactly the interesting case
+                            match reachable(&st, &key, &view, &id_bytes(&s.tree)) {
+                                Err(_) => interesting += 1,
+                                Ok(r) => {
+                                    if r.iter().any(|b| blobs_in_marked.contains(b) && b.0 == BType::Data) {
+                                        interesting += 1;
+                                    }
+                                }
+                            }
+                        }
+                    }
+                }
+                // follow-up prune, then everything must be there
+                let be = st.handle();
+                let t0 = std::time::Instant::now();
+                let r = run_cmd(&Cmd::Prune(follow_up.clone()), be, &c.cfg);
+                t_follow += t0.elapsed();
+                if let Err(e) = r {
+                    fail!("[{tag}] the follow-up prune failed: {e}");
+                }
+            }
+            let t0 = std::time::Instant::now();
+            let vr = verify_all(&st, &c.cfg, &snaps);
+            t_verify += t0.elapsed();
+            if let Err(e) = vr {
+                fail!("[{tag}]{} {e}", if prune_involved { " after the follow-up prune:" } else { "" });
+            }
+            // pack data is read by check once per position (with B run completely), otherwise the
+            // structural check
+            let t0 = std::time::Instant::now();
+            let cv = open_repo(st.handle(), &c.cfg).map(|r| check_verdict(&r, j.is_none()));
+            t_check += t0.elapsed();
+            match cv {
+                Ok(CheckVerdict::Errors(e)) => fail!("[{tag}] {e}"),
+                Err(e) => fail!("[{tag}] {e}"),
+                _ => {}
+            }
+        }
+        if !a_ever_parked {
+            break; // this run of A issued fewer backend calls than the solo run
+        }
+    }
+    let k = k_done;
+    if std::env::var_os("VP_DEBUG").is_some() {
+        eprintln!("C10 debug: n_a={n_a} n_b={n_b} schedules={schedules} t_overlap={t_overlap:?} t_followup={t_follow:?} t_verify={t_verify:?} t_check={t_check:?}");
+    }
+    out.nontrivial = interesting > 0 || c.pairing == Pairing::BackupBackup;
+    out.count("schedules", schedules)
+        .count("schedules_backup_uses_marked_pack", interesting)
+        .count("positions_k", k as u64)
+        .count("commands_that_gave_up_with_an_error", failed_cmds)
+}
 
 pub fn spec() -> PropSpec {
     PropSpec {
         id: "C10",
         level: "exploration",
-        rule: "",
-        assumptions: vec![],
-        subs: vec![],
+        rule: "proptest generates (configuration, source tree, pre-state of 2–3 backups followed by a forget, pairing backup‖prune / prune‖backup / backup‖backup, edit scripts for the new backups, options of the overlapping prune — always non-instant with keep-delete 23 h). For each case the schedules are enumerated: command A is parked before its k-th backend call for EVERY k (reads and listings included), and for each k command B runs completely or is parked before 3 generated positions of its own call sequence (all positions in the thorough tier) while A finishes. Counter `schedules` = schedules executed and judged. Non-trivial = a schedule in which the backup's snapshot references a blob of a pack that the overlapping prune marked (counter), or backup‖backup; distinct by hash of the case.",
+        assumptions: vec![
+            "interleavings inside a single backend call and among the worker threads of one command are not controlled",
+            "keep-delete of the overlapping prune (23 h) exceeds the duration of the backup; the follow-up prune uses keep-delete 0",
+            "a parked backend call may occupy one rayon worker; a harness-side deadlock would end in exit code 2 via the watchdog, never in a violation",
+        ],
+        subs: vec![Box::new(Sub {
+            name: "schedules",
+            cases_quick: 64,
+            cases_thorough: 1200,
+            max_shrink_iters: 30,
+            strategy,
+            run,
+        }) as Box<dyn DynSub>],
         extra: None,
     }
 }
